@@ -30,7 +30,7 @@ PROPS = {}
 PROPS["C01"] = {
     "bounds": "leaf signatures y b n q i u x t d (every value), s o (text of 0..=3 ASCII bytes, plus 2-byte UTF-8 scalars) at every message offset 0..15 and both byte orders, "
               "through the public to_writer_for_signature / serialized_size; arrays ay aq au at with 0/1/2 elements at offsets 0/3/4; ah with two descriptors; struct (yu) at offsets 0/5; padding kernel for every usize and alignment 1/2/4/8",
-    "outside": "dicts, variants, arrays of structs, nested containers, dict-encoded structs (do not fit, DESIGN.md 9.5); strings longer than 3 bytes; 3- and 4-byte UTF-8 scalars",
+    "outside": "dicts, variants, arrays of structs, nested containers, dict-encoded structs (do not fit, DESIGN.md 9.5); strings longer than 3 bytes; 4-byte UTF-8 scalars; 3-byte scalars other than the fixed U+20AC cell",
     "assumptions": [FMT_STUB, CLOSE_STUB, FORGET, RECB,
                     "reference marshaller kani/zv/src/refmodel/dbus.rs is the specification (validated natively against spec examples and the real encoder on every run)"],
     "level_text": "Bounded model checking of the real serializer compiled by Kani: for every value of each leaf type, every message offset 0..15 and both byte "
@@ -46,6 +46,9 @@ PROPS["C01"] = {
              [H("c01_enc_s_utf8_%s" % e, "quick" if e == "le" else "thorough", timeout=1500, cost=120, recursion_bounds=REC1,
                 bounds="text = one symbolic 2-byte UTF-8 scalar (U+0080..U+07FF) optionally followed by an ASCII byte; %s-endian cell" % e,
                 asserts="bytes and length == spec marshaller (the length prefix counts bytes)") for e in ("le", "be")] +
+             [H("c01_enc_s_utf8_fixed%d" % n, "quick" if n == 2 else "thorough", timeout=1500, cost=120, recursion_bounds=REC1,
+                bounds="text = the fixed %d-byte UTF-8 scalar %s; message offset 0..15 and byte order symbolic" % (n, "U+00E9" if n == 2 else "U+20AC"),
+                asserts="bytes and length == spec marshaller (the length prefix counts bytes, also for 3-byte scalars)") for n in (2, 3)] +
              [H("c01_size_%s" % t, "quick" if t in "u" else "thorough", timeout=1800, cost=60, recursion_bounds=REC1, bounds=LEAF_BOUNDS,
                 asserts="serialized_size().size() == bytes the rules prescribe; num_fds == 0") for t in "yqutb"] +
              [H("c01_enc_a%s_p%d_k%d" % (t, p, k), "quick" if (t, p, k) in (("t", 4, 1), ("y", 3, 2)) else "thorough", timeout=2400, cost=400, recursion_bounds=REC1, mem_gb=16,
@@ -191,7 +194,7 @@ PROPS["C07"] = {
 # ------------------------------------------------------------------ C08
 PROPS["C08"] = {
     "bounds": "three symbolic values per numeric variant (y b n q i u x t d, every payload incl. NaN, signed zeros, infinities) and three cross-variant combinations",
-    "outside": "strings longer than 2 bytes, arrays/dicts/structures, nesting deeper than one level, OwnedValue, conversions other than u32/i64/f64",
+    "outside": "strings longer than 2 bytes, the laws on arrays/dicts/structures (only the slice->Array conversion is decided, on one-element cells), nesting deeper than one level, OwnedValue, scalar conversions other than u32/i64/f64",
     "assumptions": [FMT_STUB, FORGET, "hashing is observed through a deterministic FNV-1a Hasher (Hash must be a function of the bytes fed to the hasher)"],
     "level_text": "Bounded model checking of Value's PartialEq / Ord / Hash / try_clone / value_signature / From / TryFrom on symbolic numeric leaves: all laws over value triples of each numeric variant (every payload; NaN, signed zeros, infinities for floats) and over three cross-variant combinations.",
     "level_note": "numeric leaves only; strings, containers and nested values outside the claim",
@@ -215,6 +218,7 @@ PROPS["C08"] = {
         H("c08_clone_x", "thorough", timeout=1800, cost=150, mem_gb=16, bounds="Value::I64, every payload", asserts="as above"),
         H("c08_clone_d", "thorough", timeout=1800, cost=150, mem_gb=16, bounds="Value::F64, every non-NaN payload", asserts="as above"),
         H("c08_conversions", "thorough", timeout=1800, cost=150, mem_gb=16, bounds="every u32 / i64 / f64", asserts="T -> Value -> T identity; wrong target type refused"),
+        H("c08_array_from_slice_cell", "quick", timeout=1500, cost=60, mem_gb=16, bounds="one-element arrays built from &[Value::U8(x)] and &[x], every x", asserts="element signature v / y; elements of an av array are Value::Value wrapping the original, of an ay array bare U8"),
         H("c08_leaf_laws_nan_witness", timeout=900, cost=60, role="witness", bounds="F64(NaN), any NaN payload", asserts="reflexivity and cmp/== consistency (listed finding D7)"),
     ])],
 }
